@@ -1070,6 +1070,8 @@ impl<'a, 'b> GeneratorState<'a> {
         let mut switchnextstatement_label =
             format!(".switchnextstatement{}", self.local_label_counter_if);
         debug!("Cases : {:?}", cases);
+        // When the selector lives in the accumulator, only the first test can rely on the flags left by its evaluation
+        let mut flags_from_selector = true;
         for (case, is_last_element) in cases
             .iter()
             .enumerate()
@@ -1081,6 +1083,10 @@ impl<'a, 'b> GeneratorState<'a> {
             match case.0.len() {
                 0 => (),
                 1 => {
+                    if case.0[0] == 0 && !flags_from_selector && matches!(e, ExprType::A(_)) {
+                        self.asm(CMP, &ExprType::Immediate(0), pos, false)?;
+                    }
+                    flags_from_selector = false;
                     self.generate_condition_ex(
                         &e,
                         &Operation::Eq,
@@ -1093,6 +1099,10 @@ impl<'a, 'b> GeneratorState<'a> {
                 }
                 _ => {
                     for i in &case.0 {
+                        if *i == 0 && !flags_from_selector && matches!(e, ExprType::A(_)) {
+                            self.asm(CMP, &ExprType::Immediate(0), pos, false)?;
+                        }
+                        flags_from_selector = false;
                         self.generate_condition_ex(
                             &e,
                             &Operation::Eq,
